@@ -35,8 +35,8 @@ UNPROVED = [
     "No theorem covers the payout part of the removal handlers (whether a removal that passes the unlock check later fails for "
     "pool depth, margin health or the removal queue); such a failure only makes the removal refused, which is the safe direction.",
     "ProcessRemovalQueue / queued removals (O5: never persisted) are outside the model; the harness runs with the queue disabled.",
-    "The abstract-ledger simulation (code state modulo zero records = spec ledger) is not stated as a separate theorem; the five "
-    "named theorems are proved directly over the model of the code.",
+    "No separate abstract-ledger state machine is defined: the refinement is stated per message (code decision with int64 wrap, "
+    "aliasing and zero records = the spec's matured/expired/usable over mathematical integers) and per history (ledger invariants).",
 ]
 MANIFEST = {
     "text": "Lean 4 theorems over an operation-by-operation model of the clp unlock bookkeeping (int64 wrap, pointer aliasing of "
